@@ -253,7 +253,7 @@ def ob_revert_backup(cx):
         t_exec = bool(cx.choose("t_exec%d" % i, 0, 1)) if target_kind == "file" else False
         if not changed and wt_versioned == target_versioned and wt_exec == t_exec:
             cx.assume(False)                                          # iter_changes would not report it
-        taken = cx.choose("backup_taken%d" % i, 0, 2)                 # NAME.~1~ .. NAME.~taken~ already exist
+        taken = cx.choose("backup_taken%d" % i, 0, cx.p("ntaken"))   # NAME.~1~ .. NAME.~taken~ already exist
         chg.append(dict(i=i, name=name, wt_kind=wt_kind, target_kind=target_kind, wt_versioned=wt_versioned,
                         target_versioned=target_versioned, in_basis=in_basis, wt_sha=wt_sha, basis_sha=basis_sha,
                         target_sha=target_sha, changed=changed, wt_exec=wt_exec, t_exec=t_exec, taken=taken))
@@ -419,10 +419,10 @@ def obligations(tier):
                bounds="<= %(nfiles)d files with symbolic names of <= %(lname)d chars, each unchanged / modified / newly added / "
                       "unknown / versioned but missing, each with or without an earlier backup NAME.~1~ in the working directory; "
                       "keep or delete, forced or not" % p),
-            Ob("revert_backup", ob_revert_backup, [(TR, {})], dict(nchanges=1 if q else 2), 900 if q else 7200, 2 if q else 1,
+            Ob("revert_backup", ob_revert_backup, [(TR, {})], dict(nchanges=1, ntaken=2 if q else 5), 900 if q else 7200, 2 if q else 1,
                ["not_user_content", "kept_in_place", "backed_up_revert", "revert_earlier_backup_kept", "discard_requested"],
                setup=setup,
                bounds="_alter_files over <= %d reported change(s); working / target kind file / symlink / directory / absent, "
                       "versioned or not, in the basis or not, content hashes of working tree / basis / target / merge record "
-                      "symbolic (every pattern of equalities), backups on / off, 0..2 earlier backups present"
-                      % (1 if q else 2))]
+                      "symbolic (every pattern of equalities), backups on / off, 0..%d earlier backups present; two changes whose "
+                      "paths coincide (a new file on the old name of a renamed one) are outside" % (1, 2 if q else 5))]
